@@ -124,9 +124,9 @@ def check_private(ctx: Ctx):
     for c in corpus():
         if c.get("kind", "private") == "private":
             cases.append((c.get("mode", "schema"), c["ops"]))
-    for _ in range(ctx.budget(200, 4000)):
+    for _ in range(ctx.budget(200, 3000)):
         cases.append(("schema", G.gen_schema_seq(r)))
-    for _ in range(ctx.budget(100, 2400)):
+    for _ in range(ctx.budget(100, 1800)):
         cases.append(("wild", G.gen_wild_seq(r)))
     exprs, keep = [], []
     n_or = 0
@@ -265,7 +265,7 @@ def direct_findings(c, out, tree):
 def check_direct(ctx: Ctx):
     r = ctx.rng
     cases = [c["case"] for c in corpus() if c.get("kind") == "direct"]
-    cases += [G.gen_direct(r) for _ in range(ctx.budget(160, 3000))]
+    cases += [G.gen_direct(r) for _ in range(ctx.budget(160, 2400))]
     exprs, keep = [], []
     for c in cases:
         out, tree = direct_impl(c)
@@ -334,7 +334,7 @@ def globals_child():
 def check_globals(ctx: Ctx):
     r = ctx.rng
     seqs = [c["ops"] for c in corpus() if c.get("kind") == "globals"]
-    seqs += [G.gen_globals_seq(r) for _ in range(ctx.budget(30, 500))]
+    seqs += [G.gen_globals_seq(r) for _ in range(ctx.budget(30, 400))]
     env = dict(os.environ)
     p = subprocess.run([sys.executable, "-W", "ignore", "-c",
                         "from harness.props.C19 import globals_child; globals_child()"],
